@@ -120,6 +120,12 @@ theorem opcode_state_matches :
     (genGlobals = declaredGlobalsPinned ∨ genGlobals = declaredGlobalsFixed)
     ∧ genReadOnly = declaredReadOnly := by decide
 
+/-- the process-wide registries of pkg/bmnumbers and pkg/procbuilder and their writers are exactly the
+    declared ones: a new package-level table, or a new function writing one of them (e.g. a `Simulate`
+    or a step of the simulation loop), breaks this obligation.  That the registration functions do not
+    write when the entry already exists is checked dynamically (registry sizes around every simulation). -/
+theorem process_registries_match : BMV.Gen.OpcodeState.pkgGlobals = declaredRegistries := by decide
+
 /-! ### non-vacuity -/
 
 example : Complete 3 [2, 0, 1] := by
